@@ -1,5 +1,6 @@
 //! seqx: exhaustive single-thread history exploration of the fibre channels (engine E2, channels part).
 mod chan;
+mod topic;
 
 use chan::adapters::Flavour;
 use chan::explore::{replay, Act, Cfg, Explorer, Stats};
@@ -384,6 +385,74 @@ fn run_cfg_in_child(cfg: &Cfg) -> (Scenario, Vec<Violation>) {
     }
 }
 
+fn run_topic_suite(tier: &str, out: &str, jobs: usize) -> ! {
+    let cfgs = topic::configs(tier);
+    let queue = Arc::new(Mutex::new(cfgs.into_iter().rev().collect::<Vec<_>>()));
+    let results: Arc<Mutex<Vec<(Scenario, Vec<Violation>)>>> = Arc::new(Mutex::new(Vec::new()));
+    let exe = std::env::current_exe().unwrap();
+    let mut hs = vec![];
+    for w in 0..jobs {
+        let q = queue.clone();
+        let res = results.clone();
+        let exe = exe.clone();
+        hs.push(std::thread::spawn(move || {
+            let mut n = 0;
+            loop {
+                let c = { q.lock().unwrap().pop() };
+                let Some(c) = c else { break };
+                n += 1;
+                let base = format!("{}/topic-{}-{}-{}", tmp_dir(), std::process::id(), w, n);
+                let cp = format!("{}.cfg.json", base);
+                let op = format!("{}.out.json", base);
+                std::fs::write(&cp, serde_json::to_string(&c).unwrap()).unwrap();
+                let st = std::process::Command::new(&exe).args(["run-one-topic", &cp, &op]).stderr(std::process::Stdio::piped()).output().unwrap();
+                let r = std::fs::read_to_string(&op).ok().and_then(|t| serde_json::from_str::<serde_json::Value>(&t).ok());
+                let _ = std::fs::remove_file(&cp);
+                let _ = std::fs::remove_file(&op);
+                match r {
+                    Some(v) => {
+                        let sc: Scenario = serde_json::from_value(v["scenario"].clone()).unwrap();
+                        let vs: Vec<Violation> = serde_json::from_value(v["violations"].clone()).unwrap();
+                        res.lock().unwrap().push((sc, vs));
+                    }
+                    None => {
+                        let err = String::from_utf8_lossy(&st.stderr).to_string();
+                        res.lock().unwrap().push((Scenario { name: c.name(), properties: vec!["C08".into()], exhaustive: false, caps: vec![format!("child died ({:?}): {}", st.status, err.lines().last().unwrap_or(""))], ..Default::default() }, vec![]));
+                    }
+                }
+            }
+        }));
+    }
+    for h in hs {
+        h.join().unwrap();
+    }
+    let mut rep = Report::new("seqx-topic", tier);
+    let mut rs = std::mem::take(&mut *results.lock().unwrap());
+    rs.sort_by(|a, b| a.0.name.cmp(&b.0.name));
+    // one finding per class (rule/op): minimal witness
+    let mut best: std::collections::BTreeMap<String, Violation> = std::collections::BTreeMap::new();
+    let mut died = false;
+    for (sc, vs) in rs {
+        if sc.executions == 0 {
+            died = true;
+        }
+        rep.scenarios.push(sc);
+        for v in vs {
+            let class = v.fingerprint.split('@').next().unwrap().to_string();
+            let key = |x: &Violation| (x.fingerprint.split('@').nth(1).unwrap_or("").matches(',').count(), x.scenario.clone(), x.fingerprint.clone());
+            match best.get(&class) {
+                Some(old) if key(old) <= key(&v) => {}
+                _ => {
+                    best.insert(class, v);
+                }
+            }
+        }
+    }
+    rep.violations = best.into_values().collect();
+    rep.write(out);
+    std::process::exit(if died { 3 } else { 0 });
+}
+
 fn tmp_dir() -> String {
     // scratch files live under /verif/target (never /tmp)
     let exe = std::env::current_exe().unwrap();
@@ -417,6 +486,7 @@ fn main() {
             let mut out = "report.json".to_string();
             let mut jobs = 16usize;
             let mut space: Option<String> = None;
+            let mut suite = "chan".to_string();
             let mut i = 2;
             while i < args.len() {
                 match args[i].as_str() {
@@ -425,9 +495,13 @@ fn main() {
                     "--jobs" => { jobs = args[i + 1].parse().unwrap(); i += 1; }
                     "--props" => { i += 1; }
                     "--space" => { space = Some(args[i + 1].clone()); i += 1; }
+                    "--suite" => { suite = args[i + 1].clone(); i += 1; }
                     _ => {}
                 }
                 i += 1;
+            }
+            if suite == "topic" {
+                run_topic_suite(&tier, &out, jobs);
             }
             let cfgs = configs(space.as_deref().unwrap_or(&tier));
             let queue = Arc::new(Mutex::new(cfgs.into_iter().rev().collect::<Vec<_>>()));
@@ -466,6 +540,12 @@ fn main() {
             // stuck worker threads (hangs) would keep the process alive
             std::process::exit(0);
         }
+        Some("run-one-topic") => {
+            let cfg: topic::Cfg = serde_json::from_str(&std::fs::read_to_string(&args[2]).unwrap()).unwrap();
+            let (sc, viol) = topic::run_cfg(&cfg);
+            std::fs::write(&args[3], serde_json::to_string(&serde_json::json!({"scenario": sc, "violations": viol})).unwrap()).unwrap();
+            std::process::exit(0);
+        }
         Some("run-one") => {
             // child: one configuration; args: cfg.json out.json
             let cfg: Cfg = serde_json::from_str(&std::fs::read_to_string(&args[2]).unwrap()).unwrap();
@@ -480,6 +560,16 @@ fn main() {
             let txt = std::fs::read_to_string(&args[2]).expect("read replay");
             let v: serde_json::Value = serde_json::from_str(&txt).unwrap();
             let r = &v["replay"];
+            if r["kind"] == "topic" {
+                let cfg: topic::Cfg = serde_json::from_value(r["cfg"].clone()).unwrap();
+                let hist: Vec<topic::Act> = serde_json::from_value(r["history"].clone()).unwrap();
+                let (log, f) = topic::replay(&cfg, &hist);
+                for (a, o) in &log { println!("  {:?} -> {:?}", a, o); }
+                match f {
+                    Some(f) => { println!("VIOLATION reproduced: {} / {} — {}", f.rule, f.op, f.msg); std::process::exit(1) }
+                    None => { println!("no violation"); std::process::exit(0) }
+                }
+            }
             let cfg: Cfg = serde_json::from_value(r["cfg"].clone()).unwrap();
             let hist: Vec<Act> = serde_json::from_value(r["history"].clone()).unwrap();
             println!("replaying {} actions on {}", hist.len(), cfg.name());
